@@ -37,7 +37,7 @@ type C15Sc struct {
 	DetachMw bool `json:"detach_mw,omitempty"`
 }
 
-var c15Actions = []string{"pr", "pw", "pr,pw", "pw,pr", "pc", "pg", "pw,et", "pw,ps", "y2,pr", "pr,y2,pw,y1,pr", "pw,y3,pr", "y1,pg", "pc,pr", "pw,pc,pr", "ok", "et", "pz", "pw,pz,pr", "pz,pr", "px", "pw,px,pr", "nq", "pw,nq,pr", "nq,pr", "pr,nq,pw", "dx,pw", "dx,pr", "dx,pw,pr", "pw,dx,pr", "dx,pg", "dx,pz,pr", "pr,dx,pw"}
+var c15Actions = []string{"pr", "pw", "pr,pw", "pw,pr", "pc", "pg", "pw,et", "pw,ps", "y2,pr", "pr,y2,pw,y1,pr", "pw,y3,pr", "y1,pg", "pc,pr", "pw,pc,pr", "ok", "et", "pz", "pw,pz,pr", "pz,pr", "px", "pw,px,pr", "nq", "pw,nq,pr", "nq,pr", "pr,nq,pw", "dx,pw", "dx,pr", "dx,pw,pr", "pw,dx,pr", "dx,pg", "dx,pz,pr", "pr,dx,pw", "pu", "pr,pu", "pw,pu", "pu,pr"}
 
 func genC15(g *simrt.Tape, tier string) any {
 	sc := &C15Sc{Direct: g.Draw(3) == 0}
@@ -59,6 +59,10 @@ func genC15(g *simrt.Tape, tier string) any {
 					it.Ext = "plain"
 				case 1:
 					it.NoID = true
+				}
+				// the operation of the item: the placeholder does not care which
+				if g.Draw(3) == 0 {
+					it.Op = []string{"destroy", "archive", "recover", "revoke"}[g.Draw(4)]
 				}
 				rs.Items = append(rs.Items, it)
 			}
@@ -344,6 +348,17 @@ func c15Floor(tier string) []*C15Sc {
 				{Reqs: []ReqSc{{Version: 4, Option: 1, Items: []ItemSc{{Tok: wr}, {Tok: "pr"}}}, {Version: 4, Items: []ItemSc{{Tok: "pr"}, {Tok: "pg"}}}}},
 				{Reqs: []ReqSc{{Version: 4, Items: []ItemSc{{Tok: "y2,pr"}, {Tok: "pg"}}}}},
 			}})
+		}
+	}
+	// a value stored by one item, then an item of every routed operation that resolves its object through the
+	// placeholder and names it in its response, then readers
+	for _, op := range []string{"", "destroy", "archive", "recover", "revoke"} {
+		for _, direct := range []bool{true, false} {
+			for _, mid := range []string{"pu", "pr,pu", "pg,pu"} {
+				out = append(out, &C15Sc{Direct: direct, Conns: []C15Conn{{Reqs: []ReqSc{
+					{Version: 4, Items: []ItemSc{{Tok: "pw", Op: op}, {Tok: mid, Op: op}, {Tok: "pr"}, {Tok: "pg", Op: op}, {Tok: mid, Op: op}, {Tok: "pr", Op: op}}},
+					{Version: 4, Items: []ItemSc{{Tok: "pr", Op: op}}}}}}})
+			}
 		}
 	}
 	// every combination of optional header elements around "store, read, store, read" on one connection
